@@ -50,8 +50,11 @@ fn closed_chunk(slot: usize, start: u64, end: u64, last: Option<Id>) -> ClosedCh
 fn mk(rotate: bool) -> (RaftLog<KTypes>, Option<Id>, Option<Id>) {
     let cfg = mk_config(None, None, None, None);
     let mut rl: RaftLog<KTypes> = open_empty(cfg);
-    let l1: Option<Id> = kani::any();
-    let l2: Option<Id> = kani::any();
+    // with a rotation inside purge the state is encoded into the new chunk's
+    // head record: keep the Option shapes concrete there (Some/Some), the
+    // values symbolic; without rotation the shapes are symbolic too
+    let l1: Option<Id> = if rotate { Some(kani::any()) } else { kani::any() };
+    let l2: Option<Id> = if rotate { Some(kani::any()) } else { kani::any() };
     kani::assume(l1 <= l2);
     if let Some(x) = l2 {
         kani::assume(x.1 < 250);
